@@ -196,3 +196,29 @@ Definition g_init (tagp delp pushp : list gstep) (s : gstate) : Prop :=
   g_valid s /\
   forall i, i < gn s -> g_r (gths s i) = false /\ g_w (gths s i) = false /\
     (g_prog (gths s i) = tagp \/ g_prog (gths s i) = delp \/ g_prog (gths s i) = pushp \/ g_prog (gths s i) = []).
+
+(* ---------- system 1 on the resolver map: what the operations register ---------- *)
+From Oras Require Import Model.OciIndex.
+
+Inductive rreg := RegDig (d : desc)              (* tagResolver.Tag(desc, digest) *)
+                | RegTag (t : nat) (d : desc)    (* tagResolver.Tag(desc, tag) *)
+                | RegUntag (t : nat).            (* tagResolver.Untag(tag) *)
+Definition reg_fun (r : rreg) (ix : rmap) : rmap :=
+  match r with
+  | RegDig d => rset (RDig (d_node d)) d ix
+  | RegTag t d => rset (RTag t) d ix
+  | RegUntag t => runset (RTag t) ix
+  end.
+(* the index-saving operations that run under the shared store lock *)
+Inductive cop := CTag (d : desc) (t : nat)   (* Store.Tag with a tag name: digest first, then the tag (c08_calls_tag) *)
+               | CTagDigest (d : desc)       (* Store.Tag by digest / Push of a manifest *)
+               | CUntag (t : nat)
+               | CSave.
+Definition cop_regs (o : cop) : list rreg :=
+  match o with
+  | CTag d t => [RegDig d; RegTag t d]
+  | CTagDigest d => [RegDig d]
+  | CUntag t => [RegUntag t]
+  | CSave => []
+  end.
+Definition cop_thread_op (o : cop) : list (rmap -> rmap) * list sstep := (map reg_fun (cop_regs o), save_prog).
